@@ -2,6 +2,7 @@
 // Compiled once per label kind (-DVK_LABEL=0..6). Serves C01, C02, C03, C06,
 // C16 (simple and labelled classes).
 #include "hist.hpp"
+#include "snapshot.hpp"
 
 #ifndef VK_LABEL
 #define VK_LABEL 1
@@ -517,6 +518,7 @@ template <class G, class L> struct Monitor {
             hh = mix64(hh, sh);
             if (cfg.force && op.kind == DEDUP) checkDedupEqualsUnforced(s);
         }
+        R.digest(snapshot(s.g));
         if (s.hist.size() >= 8) R.distinct.insert(hh);
         if (sub < 3 * 5 && R.samples.size() < 4)
             R.sample("{\"class\": " + q(cls) + ", \"start_size\": " + std::to_string(n0) + ", \"history\": " + s.histJson() + "}");
@@ -571,12 +573,14 @@ template <class G, class L> struct Monitor {
         uint64_t stampCtr = (sub % 1000) * 1000;
         unsigned n0 = startN[sub % 5];
         Subject<G, L> A(n0);
-        randomWalk(r, A, 5 + r.u(50), r.u(3), stampCtr, cfg.maxN);
+        unsigned lenA = 5 + r.u(50), styleA = r.u(3); // sequenced: argument evaluation order is unspecified
+        randomWalk(r, A, lenA, styleA, stampCtr, cfg.maxN);
         const SModel<L> &T = A.m;
         // B: another route to the same graph
         unsigned nb = r.u(T.n + 1);
         Subject<G, L> B(nb);
-        randomWalk(r, B, r.u(45), r.u(3), stampCtr, T.n);
+        unsigned lenB = r.u(45), styleB = r.u(3);
+        randomWalk(r, B, lenB, styleB, stampCtr, T.n);
         if (B.m.n < T.n) {
             // grow in steps
             while (B.m.n < T.n) {
